@@ -28,6 +28,7 @@ func Run(m *mon.M) {
 	m.Require("config.levelmod_gt1", 5000)
 	m.Require("predicate.contains_true", 2000)
 	m.Require("predicate.intersects_false", 2000)
+	m.Require("predicate.lens_cells", 1000)
 	m.Stream("cover", m.N(40000, 1500000), coverCase)
 }
 
@@ -37,6 +38,7 @@ type region struct {
 	kind   string
 	in     func(p s2.Point) bool // exact membership (nil: no interior, only the listed points)
 	points []s2.Point            // points of the region (boundary and interior)
+	cells  []s2.Cell             // cells that the region grazes by construction (tested first by the predicate monitor)
 	diam   float64               // rough angular diameter
 	center s2.Point
 	desc   func() any
@@ -74,6 +76,75 @@ func ringsPolygon(r *rand.Rand, ctr s2.Point, rad float64) (*s2.Polygon, func(s2
 	return s2.PolygonFromLoops(loops), in, pts
 }
 
+// lensCap: a cap centred just outside a cell whose only contact with the cell is a thin lens across the
+// interior of one cell edge (no vertex or centre of either lies in the other).
+func lensCap(r *rand.Rand, ctr s2.Point) (s2.Cap, s2.Cell, []s2.Point, bool) {
+	cell := s2.CellFromCellID(s2.CellFromPoint(ctr).ID().Parent(r.Intn(25)))
+	k := r.Intn(4)
+	a, b := cell.Vertex(k), cell.Vertex((k+1)%4)
+	n := a.PointCross(b).Normalize()
+	if cell.Center().Dot(n) > 0 {
+		n = n.Mul(-1) // outward
+	}
+	q := s2.Interpolate(0.15+0.7*r.Float64(), a, b)
+	el := a.Distance(b).Radians()
+	d := el * gen.LogUniform(r, 1e-3, 0.2)
+	over := d * gen.LogUniform(r, 1e-4, 0.3)
+	c := s2.Point{Vector: q.Mul(math.Cos(d)).Add(n.Mul(math.Sin(d))).Normalize()}
+	cp := s2.CapFromCenterAngle(c, s1.Angle(d+over))
+	var pts []s2.Point
+	for _, f := range []float64{0.3, 0.6, 0.9} {
+		e := over * f
+		pts = append(pts, s2.Point{Vector: q.Mul(math.Cos(e)).Sub(n.Mul(math.Sin(e))).Normalize()})
+	}
+	return cp, cell, pts, true
+}
+
+// lensRect: a rectangle on the poleward side of a cell edge whose constant-latitude side cuts the poleward
+// bulge of that (geodesic) edge.
+func lensRect(r *rand.Rand, ctr s2.Point) (s2.Rect, s2.Cell, []s2.Point, bool) {
+	cell := s2.CellFromCellID(s2.CellFromPoint(ctr).ID().Parent(r.Intn(22)))
+	k := r.Intn(4)
+	a, b := cell.Vertex(k), cell.Vertex((k+1)%4)
+	best, bt := 0.0, -1.0
+	for i := 0; i <= 64; i++ {
+		t := float64(i) / 64
+		if l := math.Abs(s2.LatLngFromPoint(s2.Interpolate(t, a, b)).Lat.Radians()); l > best {
+			best, bt = l, t
+		}
+	}
+	if bt <= 0 || bt >= 1 {
+		return s2.Rect{}, cell, nil, false
+	}
+	m := s2.LatLngFromPoint(s2.Interpolate(bt, a, b))
+	la, lb := s2.LatLngFromPoint(a), s2.LatLngFromPoint(b)
+	h := best - math.Max(math.Abs(la.Lat.Radians()), math.Abs(lb.Lat.Radians()))
+	if h < 1e-12 {
+		return s2.Rect{}, cell, nil, false
+	}
+	sgn := 1.0
+	if m.Lat < 0 {
+		sgn = -1
+	}
+	inner := m.Lat.Radians() - sgn*h*(0.05+0.85*r.Float64())
+	outer := m.Lat.Radians() + sgn*h*(0.5+3*r.Float64())
+	outer = math.Max(-math.Pi/2, math.Min(math.Pi/2, outer))
+	halfw := 0.5 * s1.IntervalFromPointPair(la.Lng.Radians(), lb.Lng.Radians()).Length() * (0.7 + 0.8*r.Float64())
+	if halfw > 3 {
+		halfw = 3
+	}
+	rc := s2.Rect{Lat: r1.Interval{Lo: math.Min(inner, outer), Hi: math.Max(inner, outer)},
+		Lng: s1.IntervalFromEndpoints(math.Remainder(m.Lng.Radians()-halfw, 2*math.Pi), math.Remainder(m.Lng.Radians()+halfw, 2*math.Pi))}
+	if !rc.IsValid() || rc.IsEmpty() {
+		return rc, cell, nil, false
+	}
+	var pts []s2.Point
+	for _, f := range []float64{-0.1, -0.03, 0, 0.03, 0.1} {
+		pts = append(pts, s2.PointFromLatLng(s2.LatLng{Lat: s1.Angle(inner + sgn*h*1e-3), Lng: s1.Angle(math.Remainder(m.Lng.Radians()+f*halfw, 2*math.Pi))}))
+	}
+	return rc, cell, pts, true
+}
+
 func genRegion(r *rand.Rand) *region {
 	ctr := gen.RandCenter(r)
 	rg := &region{center: ctr}
@@ -88,8 +159,17 @@ func genRegion(r *rand.Rand) *region {
 			rad = math.Pi - gen.LogUniform(r, 1e-6, 1) // nearly the whole sphere
 		}
 		cp := s2.CapFromCenterAngle(ctr, s1.Angle(rad))
+		var extra []s2.Point
+		if r.Intn(3) == 0 {
+			if lc, cell, pts, ok := lensCap(r, ctr); ok {
+				cp, ctr, rad, extra = lc, lc.Center(), lc.Radius().Radians(), pts
+				rg.cells = append(rg.cells, cell)
+				rg.center = ctr
+			}
+		}
 		rg.r, rg.kind, rg.diam = cp, "Cap", 2*rad
 		rg.in = cp.ContainsPoint
+		rg.points = append(rg.points, extra...)
 		for k := 0; k < 12; k++ {
 			rg.points = append(rg.points, gen.Near(r, ctr, rad*(1-1e-15)), gen.Near(r, ctr, rad*r.Float64()))
 		}
@@ -104,8 +184,17 @@ func genRegion(r *rand.Rand) *region {
 		if !rc.IsValid() || rc.IsEmpty() {
 			return nil
 		}
+		var extra []s2.Point
+		if r.Intn(3) == 0 {
+			if lr, cell, pts, ok := lensRect(r, ctr); ok {
+				rc, extra = lr, pts
+				lat0, lat1, lo, width = rc.Lat.Lo, rc.Lat.Hi, rc.Lng.Lo, rc.Lng.Length()
+				rg.cells = append(rg.cells, cell)
+			}
+		}
 		rg.r, rg.kind, rg.diam = rc, "Rect", math.Max(lat1-lat0, width)
 		rg.in = rc.ContainsPoint
+		rg.points = append(rg.points, extra...)
 		for k := 0; k < 4; k++ {
 			rg.points = append(rg.points, s2.PointFromLatLng(rc.Vertex(k)))
 		}
@@ -368,18 +457,24 @@ func coverCase(c *mon.Case) {
 		}
 	}
 	// one-sided safety of the region predicates on cells that graze the region
-	for k := 0; k < 10 && len(rg.points) > 0; k++ {
-		p := rg.points[r.Intn(len(rg.points))]
-		lvl := own - 3 + r.Intn(8)
-		if lvl < 0 {
-			lvl = 0
-		}
-		if lvl > 30 {
-			lvl = 30
-		}
-		id := s2.CellFromPoint(p).ID().Parent(lvl)
-		if r.Intn(3) == 0 {
-			id = id.EdgeNeighbors()[r.Intn(4)]
+	for k := -len(rg.cells); k < 10 && len(rg.points) > 0; k++ {
+		var id s2.CellID
+		if k < 0 {
+			id = rg.cells[-k-1].ID()
+			c.Count("predicate.lens_cells", 1)
+		} else {
+			p := rg.points[r.Intn(len(rg.points))]
+			lvl := own - 3 + r.Intn(8)
+			if lvl < 0 {
+				lvl = 0
+			}
+			if lvl > 30 {
+				lvl = 30
+			}
+			id = s2.CellFromPoint(p).ID().Parent(lvl)
+			if r.Intn(3) == 0 {
+				id = id.EdgeNeighbors()[r.Intn(4)]
+			}
 		}
 		cell := s2.CellFromCellID(id)
 		c.Count("predicate.cells_checked", 1)
